@@ -329,6 +329,31 @@ def disk_case(case, sess: Session):
                     sess.violation("disk:rewritten-step-still-reads-as-the-first-payload", case, {"wrote_delta": wd_again, "by_path": got_p, "by_etag": got_r})
             except Exception as e:
                 sess.violation("disk:rewrite-of-a-step-raises", case, {"exc": type(e).__name__, "msg": str(e)[:200]})
+        if cond == "present":
+            # a step that arrives nowhere new (A -> A, nothing changed: a no-op turn) and an etag that exists in both renditions
+            # (X as a full file, then X again as a delta of A, then Y as a delta of X): every written etag still reads back
+            try:
+                with contextlib.redirect_stderr(err):
+                    logging.disable(logging.CRITICAL)
+                    try:
+                        write_snapshot_auto(d, etag_from="A", etag_to="A", payload=base, delta_mode=True)
+                        got_a = read_snapshot(root=d, etag_to="A")
+                        write_snapshot_auto(d, etag_from=None, etag_to="X", payload=cur, delta_mode=False)
+                        write_snapshot_auto(d, etag_from="A", etag_to="X", payload=cur, delta_mode=True)
+                        y_pay = dict(json.loads(json.dumps(cur)), y_marker=[1, {"z": None}])
+                        p_y, _ = write_snapshot_auto(d, etag_from="X", etag_to="Y", payload=y_pay, delta_mode=True)
+                        got_x = read_snapshot(root=d, etag_to="X")
+                        got_y = read_snapshot(path=p_y)
+                        got_a2 = read_snapshot(root=d, etag_to="A")
+                    finally:
+                        logging.disable(logging.NOTSET)
+                sess.count("no_op_steps_and_double_renditions")
+                bad_ = [n_ for n_, g_, w_ in (("A after A->A", got_a, base), ("X", got_x, cur), ("Y", got_y, y_pay), ("A at the end", got_a2, base))
+                        if canon(g_) != canon(json.loads(json.dumps(w_)))]
+                if bad_:
+                    sess.violation("disk:etag-unreadable-after-a-later-write-of-the-same-etag", case, {"unreadable": bad_})
+            except Exception as e:
+                sess.violation("disk:rewrite-of-a-step-raises", case, {"exc": type(e).__name__, "msg": str(e)[:200]})
         # asking for the removed full snapshot itself must report absence (or raise), never hand
         # back a sidecar / temp file as if it were the payload
         if cond in ("deleted_keep_sidecar", "decoy_tmp_only", "is_directory"):
